@@ -1,4 +1,5 @@
 """C15 — correlograms count exactly the spike pairs in each lag bin (DESIGN.md §5 C15)."""
+import functools
 import itertools
 import math
 from fractions import Fraction
@@ -38,6 +39,16 @@ def _prep(case):
     return r, T, times, bin_size, window
 
 
+@functools.lru_cache(maxsize=1 << 16)
+def _fr(x):
+    return Fraction(x)
+
+
+@functools.lru_cache(maxsize=1 << 16)
+def _frac(x):
+    return DC.frac(x)
+
+
 def _is_float(fr):
     return Fraction(float(fr)) == fr
 
@@ -47,13 +58,13 @@ def exact(case):
     integers the exact rational computation gives: each float product / quotient is either exact or its rounding does
     not cross an integer"""
     r, T, times, bin_size, window = _prep(case)
-    fr = Fraction(r)
-    for t, s in zip(times, T):
-        if math.trunc(Fraction(float(t)) * fr) != int(s) or int(float(t) * r) != int(s):
+    fr = _fr(r)
+    for t, s in zip(times.tolist(), T.tolist()):
+        if math.trunc(_fr(t) * fr) != s or int(t * r) != s:
             return False
     if not (1e-5 <= bin_size <= 1e5 and 1e-5 <= window <= 1e5):            # clip is the identity
         return False
-    fb, fw = Fraction(float(bin_size)), Fraction(float(window))
+    fb, fw = _fr(float(bin_size)), _fr(float(window))
     if not (int(r * float(bin_size)) == math.trunc(fr * fb) == case['bin']):
         return False
     q = fw / 2 / fb                                                         # .5*window is exact; one division
@@ -113,8 +124,8 @@ def impl(case):
 def model_query(case, impl_res):
     if case['op'] == 'ccg':
         r, T, times, bin_size, window = _prep(case)
-        q = dict(p=PID, op='ccg_q', times=[DC.frac(float(t)) for t in times], sc=case['sc'], rate=DC.frac(r),
-                 bin_size=DC.frac(float(bin_size)), window=DC.frac(float(window)), sym=case['sym'])
+        q = dict(p=PID, op='ccg_q', times=[_frac(t) for t in times.tolist()], sc=case['sc'], rate=_frac(r),
+                 bin_size=_frac(float(bin_size)), window=_frac(float(window)), sym=case['sym'])
         if case.get('ids') is not None:
             q['ids'] = case['ids']
         if len(case['t']) <= 8:
@@ -327,7 +338,7 @@ def gen(tier, rng):
                 yield c
     # the helpers on small arrays (exhaustive)
     for n in range(0, 5):
-        for arr in itertools.product(range(-2, 3), repeat=n):
+        for arr in itertools.product(range(-1, 2), repeat=n):
             for steps in range(0, n + 3):
                 c = dict(p=PID, op='diff_shifted', arr=list(arr), steps=steps)
                 if steps > n:
